@@ -28,6 +28,7 @@ EDGES = [
     "RenamedDirected",  # constructor names its ends differently
     "FalsyClassEdge",  # the class object itself is falsy
     "FrozenEdge",  # read-only v1 / v2: ends cannot be re-pointed after construction
+    "JoiningEdge",  # its __init__ calls back into the library (add_to_universe)
 ]
 
 
@@ -219,6 +220,8 @@ class C20(engine.Property):
             )
         after = random.getstate()
         v = self.check(u, op, count, ensure, s)
+        if v is not None and v["kind"] in ("C20/universe-member-that-is-not-a-vertex", "C20/not-a-universe"):
+            return {"ret": "ill-formed"}, v
         form = canon(u)
         out = {"ret": engine.h64(engine.jdump(form))}
         st.shapes.add(out["ret"])
@@ -245,7 +248,14 @@ class C20(engine.Property):
 
         if not isinstance(u, Universe):
             return engine.viol("C20/not-a-universe", {"op": op, "type": type(u).__name__})
+        from edgegraph.structure import Vertex
+
         members = u.vertices
+        strangers = [type(m).__name__ for m in members if not isinstance(m, Vertex)]
+        if strangers:
+            return engine.viol(
+                "C20/universe-member-that-is-not-a-vertex", {"op": op, "got": strangers[:5], "members": len(members)}
+            )
         if len(members) != count:
             return engine.viol(
                 "C20/wrong-vertex-count", {"op": op, "got": len(members)}
